@@ -237,7 +237,7 @@ func interpretCrash(ci *crashInfo) sim.Violation {
 		// split into the two access stacks
 		parts := regexp.MustCompile(`(?m)^(Read|Write|Previous read|Previous write|Atomic|Previous atomic)[^\n]*$`).Split(rep, -1)
 		var fns []string
-		harness := false
+		nJet := 0
 		for k := 1; k < len(parts) && k <= 2; k++ {
 			blk := parts[k]
 			if g := strings.Index(blk, "\nGoroutine "); g > 0 {
@@ -245,14 +245,17 @@ func interpretCrash(ci *crashInfo) sim.Violation {
 			}
 			f := innermostJet(blk)
 			if f == "" {
-				harness = true
-				f = "harness:" + firstFrame(blk)
+				// no jet frame on this side: e.g. the caller reading from a reader jet handed out
+				f = "caller:" + firstFrame(blk)
+			} else {
+				nJet++
 			}
 			fns = append(fns, f)
 		}
 		sort.Strings(fns)
 		v := sim.Violation{Oracle: "race", Key: "race:" + strings.Join(fns, "~"), Detail: sim.Clip(rep, 3500)}
-		if harness {
+		if nJet == 0 {
+			// neither access is in jet: the harness races with itself (machinery bug)
 			v.Oracle = "harness-race"
 		}
 		return v
